@@ -1,16 +1,16 @@
 SPECIFICATION Spec
 CHECK_DEADLOCK FALSE
 VIEW view
-INVARIANTS C05 QuietAfterPause
+INVARIANTS ShutdownFlushes
 CONSTANTS
   Streams <- S2t
   TaskOf <- TaskOf2
   Script <- Script2t
-  MaxCount = 1
-  MaxFaults = 1
+  MaxCount = 2
+  MaxFaults = 0
   MaxCrashes = 1
   MayPause = TRUE
   StopOnAckFailure = TRUE
   RetryAfterPause = FALSE
-  MayStale = FALSE
-  ExitFlushes = TRUE
+  MayStale = TRUE
+  ExitFlushes = FALSE
